@@ -33,6 +33,8 @@ type RunConfig struct {
 	Seed            int64
 	Samples         int
 	StopAfterViol   int
+	MaxWallS        int
+	IntEncoding     bool
 	Params          map[string]int64 // harness parameters (verifrt.Param)
 }
 
